@@ -7,3 +7,5 @@ pub mod common;
 mod c19;
 mod gen_c02;
 mod c02;
+pub mod c01;
+mod c03;
